@@ -109,6 +109,16 @@ for it in range(N):
             bad("closing-a-fixed-income-sub-strategy-liquidates-it", sub_notional=float(top_["sub"].notional_value), position=float(top_["sub"]["fi"].position), parent_notional=float(top_.notional_value))
     except Exception as e:
         bad("closing-a-fixed-income-sub-strategy-liquidates-it", raised=repr(e)[:160])
+    # ... and flattens a whole tree holding one: every security of either level ends flat, nothing raises
+    sub2 = FixedIncomeStrategy("sub", [], children=[FixedIncomeSecurity("fi")]); top2 = FixedIncomeStrategy("top", [], children=[sub2, CouponPayingSecurity("cp")])
+    top2.setup(data[["fi", "cp"]], coupons=coup[["fi", "cp"]]); top2.update(idx[0]); top2.update(idx[1])
+    top2["sub"].transact(float(rs.randint(10, 200)), "fi"); top2.transact(float(rs.choice([50.0, -30.0])), "cp"); top2.update(idx[1]); evals += 1
+    try:
+        top2.flatten(); top2.update(idx[1])
+        if abs(float(top2["sub"]["fi"].position)) > 1e-9 or abs(float(top2["cp"].position)) > 1e-9 or abs(float(top2.notional_value)) > 1e-9:
+            bad("flattening-a-fixed-income-tree-closes-every-position", fi=float(top2["sub"]["fi"].position), cp=float(top2["cp"].position), parent_notional=float(top2.notional_value))
+    except Exception as e:
+        bad("flattening-a-fixed-income-tree-closes-every-position", raised=repr(e)[:160])
     if it < 1: samples.append(dict(tables=int(which), final_price=float(s.price)))
 print("JSON:" + json.dumps(dict(evaluations=evals, distinct=len(distinct), failures=fails[:5], samples=samples,
       rule="one fixed-income strategy holding all five security types, long and short, random coupon schedules, holding-cost tables supplied none/long/short(subset)/both; a notional schedule with a zero; the renormalised result recomputed date by date with initial capital 0 / non-zero and random capital flows",
